@@ -1,10 +1,107 @@
-(* C05 - tie by translation: the window computations regenerated from tco.py on this run
-   (Gen/DlcK.v) are the model's send_window_slots / recv_window_slots. *)
+(* C05 - tie by translation.  Gen/DlcK.v is regenerated from src/nfc/llcp/tco.py on every run
+   (translate/kspec_c05.py: the two window computations as whole functions, and the sequence
+   arithmetic / tests of send, recv, _enqueue_state_established, the base class enqueue, dequeue and
+   sendack as expressions pulled out of the methods' syntax trees).  For every endpoint function of
+   Model/Dlc.v, k_<f> below is the same function with each arithmetic expression and test replaced
+   by the generated kernel, and bridge_<f> proves f = k_<f>.  A change of any of these expressions
+   in tco.py changes Gen/DlcK.v and breaks the corresponding lemma. *)
 From Coq Require Import ZArith List Bool.
 From NV Require Import Base.Result Base.Bytes Model.Dlc Gen.DlcK.
+Import ListNotations.
 Open Scope Z_scope.
 
 Lemma bridge_send_window_slots x : gen_send_window_slots (rwr x) (vs x) (vsa x) = send_window_slots x.
 Proof. reflexivity. Qed.
 Lemma bridge_recv_window_slots x : gen_recv_window_slots (rwl x) (vr x) (vra x) = recv_window_slots x.
+Proof. reflexivity. Qed.
+
+(* send(): EMSGSIZE test, window test, N(S) := V(S), V(S) := V(S) + 1 mod 16 *)
+Definition k_ep_send (x : ep) (m : msg) : ep * res bool :=
+  if negb (est x) then (x, Err (LlcpError ENOTCONN))
+  else if gen_dlc_send_emsgsize (len m) (smiu x) then (x, Err (LlcpError EMSGSIZE))
+  else if gen_dlc_send_window_full (gen_send_window_slots (rwr x) (vs x) (vsa x)) then (x, Err (LlcpError EWOULDBLOCK))
+  else (set_sq (set_vs x (gen_dlc_send_vs (vs x))) (sq x ++ [PI (gen_dlc_send_ns (vs x)) 0 m]), Ok true).
+Lemma bridge_ep_send x m : ep_send x m = k_ep_send x m.
+Proof. unfold ep_send, k_ep_send, gen_dlc_send_emsgsize. rewrite Z.gtb_ltb. reflexivity. Qed.
+
+(* recv(): recv_confs += 1 and the overrun guard *)
+Definition k_ep_recv (x : ep) : ep * res msg :=
+  if negb (est x) then (x, Err (LlcpError ENOTCONN))
+  else match rq x with
+       | [] => (x, Hang)
+       | d :: q =>
+           let x' := set_confs (set_rq x q) (gen_dlc_recv_confs (confs x)) in
+           if gen_dlc_recv_overrun (gen_dlc_recv_confs (confs x)) (rwl x) then (x', Err RuntimeErr) else (x', Ok d)
+       end.
+Lemma bridge_ep_recv x : ep_recv x = k_ep_recv x.
+Proof. unfold ep_recv, k_ep_recv, gen_dlc_recv_overrun. rewrite Z.gtb_ltb. reflexivity. Qed.
+
+(* enqueue(): acks = N(R) - V(SA) mod 16; if acks: acks_recvd += acks; V(SA) := N(R) *)
+Definition k_process_nr (x : ep) (nr : Z) : ep :=
+  let a := gen_dlc_enq_acks nr (vsa x) in
+  if gen_dlc_enq_acks_any a then set_vsa (set_acks x (gen_dlc_enq_acks_recvd (acks x) a)) (gen_dlc_enq_vsa nr) else x.
+Lemma bridge_process_nr x nr : process_nr x nr = k_process_nr x nr.
+Proof. unfold process_nr, k_process_nr, gen_dlc_enq_acks_any, gen_dlc_enq_acks. cbv zeta.
+  destruct ((nr - vsa x) mod 16 =? 0); reflexivity. Qed.
+
+(* enqueue(): MIU test, N(S) == V(R) test, V(R) := V(R) + 1 mod 16, receive-queue room test *)
+Definition k_ep_enqueue (x : ep) (p : pdu) : ep * enq_result :=
+  if negb (est x) then (x, EnqIgnored)
+  else match p with
+       | PI ns nr d =>
+           if gen_dlc_enq_oversize (len d) (rmiu x) then (set_sq x [frmr_for x 4 ns nr], EnqRejected)
+           else if gen_dlc_enq_ns_bad ns (vr x) then (set_sq x [frmr_for x 1 ns nr], EnqRejected)
+           else
+             let x1 := k_process_nr x nr in
+             let x2 := set_vr x1 (gen_dlc_enq_vr (vr x1)) in
+             if gen_dlc_enq_room (len (rq x2)) (rbuf x2) then (set_rq x2 (rq x2 ++ [d]), EnqAccepted)
+             else (x2, EnqDiscarded)
+       | PRR nr => (set_send_busy (k_process_nr x nr) false, EnqAck)
+       | PRNR nr => (set_send_busy (k_process_nr x nr) true, EnqAck)
+       | PFRMR _ _ _ _ _ _ _ _ => (shutdown x, EnqShutdown)
+       end.
+Lemma bridge_ep_enqueue x p : ep_enqueue x p = k_ep_enqueue x p.
+Proof. unfold ep_enqueue, k_ep_enqueue, gen_dlc_enq_oversize. destruct p; rewrite <- ?bridge_process_nr, ?Z.gtb_ltb; reflexivity. Qed.
+
+(* V(RA) := V(RA) + recv_confs mod 16; recv_confs := 0; RR/RNR(V(RA)) *)
+Definition k_ack (x : ep) (vra' confs' : Z) : ep * option pdu :=
+  (set_confs (set_vra x vra') confs', Some (ack_pdu x vra')).
+
+(* sendack(): voluntary acknowledgement *)
+Definition k_ep_sendack (x : ep) : ep * option pdu :=
+  if est x && gen_dlc_voluntary_cond (confs x) (vr x) (vra x)
+  then k_ack x (gen_dlc_voluntary_vra (vra x) (confs x)) gen_dlc_voluntary_confs else (x, None).
+Lemma bridge_ep_sendack x : ep_sendack x = k_ep_sendack x.
+Proof. unfold ep_sendack, k_ep_sendack, gen_dlc_voluntary_cond. rewrite <- andb_assoc. reflexivity. Qed.
+
+(* dequeue(): necessary acknowledgement (nothing dequeued, window exhausted) *)
+Definition k_necessary_ack (x : ep) : ep * option pdu :=
+  if gen_dlc_necessary_cond (est x) (confs x) (gen_recv_window_slots (rwl x) (vr x) (vra x))
+  then k_ack x (gen_dlc_necessary_vra (vra x) (confs x)) gen_dlc_necessary_confs else (x, None).
+Lemma bridge_necessary_ack x : necessary_ack x = k_necessary_ack x.
+Proof. reflexivity. Qed.
+
+(* dequeue(): piggy-backed acknowledgement and N(R) of the I PDU *)
+Definition k_ep_dequeue (x : ep) (miu icv : Z) : ep * option pdu :=
+  if est x && negb (Bool.eqb (busy_sent x) (busy x)) then
+    (set_busy_sent x (busy x), Some (ack_pdu x (vra x)))
+  else
+    match sq x with
+    | [] => k_necessary_ack x
+    | p :: q =>
+        if miu <? pdu_info_size p icv then k_necessary_ack x
+        else match p with
+             | PFRMR _ _ _ _ _ _ _ _ => (shutdown x, Some p)
+             | PI ns nr d =>
+                 if est x then
+                   let x1 := set_sq x q in
+                   let x2 := if gen_dlc_piggy_cond (confs x) (vr x) (vra x)
+                             then set_confs (set_vra x1 (gen_dlc_piggy_vra (vra x) (confs x))) gen_dlc_piggy_confs
+                             else x1 in
+                   (x2, Some (PI ns (gen_dlc_piggy_nr (vra x2)) d))
+                 else (set_sq x q, Some p)
+             | _ => (set_sq x q, Some p)
+             end
+    end.
+Lemma bridge_ep_dequeue x miu icv : ep_dequeue x miu icv = k_ep_dequeue x miu icv.
 Proof. reflexivity. Qed.
